@@ -5,6 +5,18 @@ ALL = ["C%02d" % i for i in range(1, 21)]
 
 CHECKS = [
     {
+        "property_id": "C14",
+        "text": "Coq theorem: on the undo/redo stack model with the content edits of the alphabet, k undos restore exactly the content recorded k steps back and j <= k redos the content k - j steps back (any program, any depth within the capacity of 50); proved for every executor with exactly inverting reverses and instantiated. Real single-client sessions are checked against recorded contents and replayed through the model step by step; approximate kinds are checked for no-failure, clone == root and peer agreement.",
+        "note": "PARTIAL: tree edits and approximate kinds are engine oracles only.",
+        "technique": "Coq proof (history model, inversion of reverse operations) + session replay through the model + recorded-content oracle",
+    },
+    {
+        "property_id": "C15",
+        "text": "Exhaustive execution of every small-scope two-client history with undo/redo (the property's own finite quantifier) on real Documents with a minimum-vector-sending mini server, plus random larger histories on the real server; Coq theorem for counters, Coq refutation (with the implementation's own witness) for the identity re-use of object/text/tree restores.",
+        "note": "The property is violated on the pinned tree for object, text and tree restores (known finding P20, design-level, tracked upstream); violations are attributed only when the pushed changes re-use an identity (small scope) or when another client edits while one undoes (random histories).",
+        "technique": "exhaustive small-scope execution + Coq proof (counter) / refutation (identity re-use) + random histories on the real server",
+    },
+    {
         "property_id": "C18",
         "text": "Coq theorems locate exactly where the YSON text path (Marshal -> Unmarshal) is the identity (texts without constructor tokens / ')', Long up to 2^53) and refute it elsewhere; the model of the rewriting and of the float64 parse is compared with yson.Unmarshal. Every reachable document of generated histories and generated literals goes through the value path, the text path and a stability check; revisions are created/restored and documents compacted and rebuilt on a real server.",
         "note": "PARTIAL: the value path has no Coq model. Known findings P9 (text path on unsafe literals) and P39 (dedup counter registers are not carried by operations: compaction and revision restore reset counted dedup counters) are attributed by signature.",
